@@ -18,6 +18,7 @@ from pv.programs import _jsonable
 
 ID = 'C17'
 TITLE = 'ProcessLauncher tasks'
+ANCHORS = ['plumpy.process_comms:ProcessLauncher.__call__', 'plumpy.process_comms:ProcessLauncher._launch', 'plumpy.process_comms:ProcessLauncher._continue', 'plumpy.process_comms:ProcessLauncher._create', 'plumpy.loaders:DefaultObjectLoader.identify_object', 'plumpy.loaders:DefaultObjectLoader.load_object']
 LEVEL = 'exploration'
 TECHNIQUE = ('runtime monitoring of task histories against an executable model of the task semantics: create / launch / continue tasks sent to a real '
              'ProcessLauncher directly and through the real controllers over an in-process communicator; replies, persister content, process '
